@@ -518,7 +518,7 @@ class ExtendedIndexedOperand(Operand):
             )
         size = self.instruction.mode.ind_sz
 
-        if type(self.value) != str and self.value.is_address():
+        if type(self.value) != str and (self.value.is_address() or self.value.is_address_expression()):
             size += 2
             return CodePackage(
                 op_code=NumericValue(self.instruction.mode.ind),
@@ -610,6 +610,11 @@ class ExtendedIndexedOperand(Operand):
                     size += 2 if wide else 1
                     max_size = size
                     raw_post_byte |= 0x9D if wide else 0x9C
+            elif additional_needs_resolution:
+                # a label as constant offset: its address is known after layout, so the 16-bit form is taken
+                raw_post_byte |= 0x99
+                size += 2
+                max_size = size
             else:
                 if additional.is_negative():
                     if additional.is_8_bit():
@@ -750,6 +755,11 @@ class IndexedOperand(Operand):
                     size += 2 if wide else 1
                     max_size = size
                     raw_post_byte |= 0x8D if wide else 0x8C
+            elif additional_needs_resolution:
+                # a label as constant offset: its address is known after layout, so the 16-bit form is taken
+                raw_post_byte |= 0x89
+                size += 2
+                max_size = size
             else:
                 if additional.is_negative():
                     if additional.is_4_bit():
